@@ -60,6 +60,25 @@ def check_dft(cfg):
                 return 'DiscreteFourierTransform(sign=%r, halfcomplex=%r) on shape %r differs from numpy.fft' % (sign, hc, shape)
             if not np.allclose(ft.inverse(ft(x)).asarray(), x):
                 return 'inverse(forward(x)) != x for sign=%r, halfcomplex=%r, shape %r' % (sign, hc, shape)
+        # pyfftw back-end, also with a plan prepared by init_fftw_plan() and reused by a second call
+        try:
+            import pyfftw  # noqa: F401
+        except ImportError:
+            continue
+        ref = np.fft.rfftn(x) if hc else (np.fft.fftn(x) if sign == '-' else np.prod(shape) * np.fft.ifftn(x))
+        for planned in (False, True):
+            ft = odl.trafos.DiscreteFourierTransform(dom, sign=sign, halfcomplex=hc, impl='pyfftw')
+            inv = ft.inverse
+            if planned:
+                ft.init_fftw_plan(planning_effort='estimate')
+                inv.init_fftw_plan(planning_effort='estimate')
+            for call in range(2):
+                y = ft(x.copy())
+                if not np.allclose(y.asarray(), ref):
+                    return 'pyfftw DiscreteFourierTransform(sign=%r, halfcomplex=%r)%s, call %d, shape %r differs from numpy.fft by %.3g' % (
+                        sign, hc, ' with a plan prepared by init_fftw_plan()' if planned else '', call, shape, np.max(np.abs(y.asarray() - ref)))
+                if not np.allclose(inv(y.copy()).asarray(), x):
+                    return 'pyfftw inverse(forward(x)) != x%s for sign=%r, halfcomplex=%r, shape %r' % (' with prepared plans' if planned else '', sign, hc, shape)
     return None
 
 
